@@ -64,11 +64,12 @@ fn run(input: RunInput) -> ScenFuture {
             .route("/slow", slow)
             .route("/svc/*rest", echo.clone())
             .route("/p/:id", echo);
-        // in some runs the application's service exerts backpressure (tower's ConcurrencyLimit, as
-        // many slots as the peer has streams plus a few): capacity is for requests, and a stream
-        // that never delivers a request must not hold any
+        // in some runs the application's service exerts backpressure (tower's ConcurrencyLimit with
+        // 3-8 slots; the slowest legitimate request takes 300 ms, so even a full house of them
+        // delays an honest caller by seconds, not for ever): capacity is for requests, and a
+        // stream that never delivers a request must not hold any
         let h = if w.flag("h_service_backpressure", 0.3) {
-            w.start_node(w.spec(1, cfg.clone()), tower::limit::ConcurrencyLimit::new(router, max_bidi as usize + 4)).unwrap()
+            w.start_node(w.spec(1, cfg.clone()), tower::limit::ConcurrencyLimit::new(router, w.param("h_service_slots", 3, 8) as usize)).unwrap()
         } else {
             w.start_node(w.spec(1, cfg.clone()), router).unwrap()
         };
